@@ -1,7 +1,9 @@
 """C14 - buffered readers behave like one flat byte buffer for every chunking.
 
 sync  : falcon/util/reader.py  BufferedReader   (model FalconModel/Reader.lean + ReaderExtra.lean, driver rddriver)
-async : falcon/asgi/reader.py  BufferedReader   (model FalconModel/AsyncReader.lean + AsyncReaderIter.lean, theorems AsyncReaderProofs.lean, driver ardriver)
+async : falcon/asgi/reader.py  BufferedReader   (model FalconModel/AsyncReader.lean + AsyncReaderIter.lean, theorems AsyncReaderProofs.lean, driver ardriver;
+        nested delimited readers: AsyncReaderNested.lean on top of the source-generic transcription MultipartAsync.lean, theorems AsyncReaderNestedProofs.lean)
+nested: ReaderNested.lean / ReaderNestedProofs.lean (sync, any depth), AsyncReaderNested*.lean (async, any depth)
 
 Three things happen for every generated case (one reader construction + one history of operations):
   * the real class executes the history (every sync call under `alarm`, every async call under `asyncio.wait_for` + `alarm`);
@@ -13,7 +15,11 @@ PROP = 'C14'
 LEAN_MODULES = ['FalconModel.Reader', 'FalconModel.ReaderExtra', 'FalconModel.ReaderProofs', 'FalconModel.FindLemmas',
                 'FalconModel.ReadUntilProofs', 'FalconModel.RULoop', 'FalconModel.ReaderHistory', 'FalconModel.PeekProofs',
                 'FalconModel.ReaderC14', 'FalconModel.ReaderPublic', 'FalconModel.AsyncReader', 'FalconModel.AsyncReaderIter',
-                'FalconModel.AsyncReaderProofs']
+                'FalconModel.AsyncReaderProofs',
+                # nested delimited readers (both readers, any depth); ReaderMap / MultipartBridge / MultipartAsync* are shared with C13
+                'FalconModel.ReaderMap', 'FalconModel.MultipartBridge', 'FalconModel.ReaderNested', 'FalconModel.ReaderNestedProofs',
+                'FalconModel.MultipartAsync', 'FalconModel.MultipartAsyncReaderProofs', 'FalconModel.AsyncReaderNested',
+                'FalconModel.AsyncReaderNestedProofs']
 DRIVERS = ['rddriver', 'ardriver']
 THEOREMS = [
     # --- headline statements (sync reader, any lawful source = every chunking / short-read pattern)
@@ -60,6 +66,33 @@ THEOREMS = [
     'ARd.nextNorm_spec', 'ARd.normLoop_spec', 'ARd.good_next_some', 'ARd.good_next_none', 'ARd.abs_eq', 'ARd.abs_same', 'ARd.abs_length_buf',
     'ARd.straddle', 'ARd.U_spec', 'ARd.U_eq', 'ARd.U_ge', 'ARd.U_drop', 'ARd.U_found', 'ARd.U_ge_buf', 'ARd.stopAt_eq_min_U',
     'ARd.sliceTo_eq_slice', 'ARd.take_min_length', 'ARd.drop_min_length',
+    # --- ReaderNestedProofs.lean: nested delimited readers of the sync reader, any depth
+    'Rn.delimit_is_lawful_source', 'Rn.delimit_source_lawful', 'Rn.nested_history_refines_cursor', 'Rn.parent_resumes',
+    'Rn.nested_depth_refines', 'Rn.nested_depth_refines_fresh', 'Rn.child_parent', 'Rn.childGD_full', 'Rn.runProg_map',
+    'Rn.delimMap_sim', 'Rn.delimit_map', 'Rn.sub_val_sim', 'Rn.Sim.comp', 'Rn.gd_read_full', 'Rn.inv_mapR',
+    'Rn.readerRun_full', 'Rn.readerStep_full', 'Rn.full_read', 'Rn.performReadLoop_full', 'Rn.performRead_full', 'Rn.fillBuffer_full',
+    'Rn.peek_full', 'Rn.readCore_full', 'Rn.read_full', 'Rn.firstRead_full', 'Rn.spliceNext_full', 'Rn.consumeD_full',
+    'Rn.finishRU_full', 'Rn.finalizeRU_full', 'Rn.readUntilLoop_full', 'Rn.readUntilCore_full', 'Rn.pipeUntilLoop_full',
+    'Rn.pipeUntil_full', 'Rn.readUntil_full', 'Rn.pipeLoop_full', 'Rn.pipe_full', 'Rn.exhaust_full', 'Rn.readline_full',
+    'Rn.readlinesLoop_full', 'Rn.readlines_full',
+    # ... resting on (MultipartBridge.lean / ReaderMap.lean, shared with C13)
+    'Mf.part_stream_refines', 'Mf.gd_read', 'Mf.gd_at', 'Mf.toDelim_sim', 'Mf.childGD_facts', 'Mf.readerRun_map', 'Mf.readerStep_map',
+    'Mf.readUntil_map', 'Mf.stopAt_drop', 'Mf.stopAt_min', 'Mf.contentOf_length',
+    # --- AsyncReaderNestedProofs.lean: ARd = Ma's source-generic reader at the concrete source; nested delimited readers, any depth
+    'An.toMa_asyncStep', 'An.toMa_asyncRun', 'An.toMa_iterate', 'An.ofMa_toMa', 'An.toMa_ofMa', 'An.toMa_good', 'An.toMa_abs',
+    'An.toMa_tell', 'An.toMa_eof', 'An.toMa_total', 'An.toMa_future', 'An.normLoop_eq', 'An.nextNorm_eq', 'An.dCheck_eq', 'An.gstep_eq',
+    'An.readAll_eq', 'An.prepend_eq', 'An.readN_eq', 'An.readFrom_eq', 'An.peekLoop_eq', 'An.peek_eq', 'An.consume_eq', 'An.read_eq',
+    'An.readall_eq', 'An.pipe_eq', 'An.readUntil_eq', 'An.pipeUntil_eq', 'An.iterLoop_eq', 'An.aiterPc_eq',
+    'An.delimited_source_lawful', 'An.async_nested_history_refines_cursor', 'An.async_nested_depth_refines',
+    'An.root_nested_history_refines_cursor', 'An.async_nested_depth_fresh', 'An.n_history_refines_cursor', 'An.nStep_refines',
+    'An.iterate_refines', 'An.iterLoop_spec', 'An.child_parent', 'An.absA_held', 'An.total_reach', 'An.delimit_good', 'An.tell_eq',
+    'An.eof_rest', 'An.parent_src_reach', 'An.nRun_reach', 'An.nStep_reach', 'An.iterLoop_reach', 'An.nRun_vt', 'An.nStep_vt',
+    'An.iterLoop_vt', 'An.arRun_vt', 'An.arStep_vt', 'An.normLoop_vt', 'An.nextNorm_vt', 'An.dCheck_vt', 'An.gstep_vt', 'An.readAll_vt',
+    'An.prepend_vt', 'An.readN_vt', 'An.readFrom_vt', 'An.peekLoop_vt', 'An.peek_vt', 'An.consume_vt', 'An.readUntil_vt', 'An.pipeUntil_vt',
+    # ... resting on (MultipartAsyncReaderProofs.lean, shared with C13): the source-generic port of AsyncReaderProofs.lean
+    'Ma.ar_history_refines_cursor', 'Ma.arStep_refines', 'Ma.PInv_reach', 'Ma.arRun_reach', 'Ma.gstep_reach', 'Ma.step_spec',
+    'Ma.nextNorm_spec', 'Ma.readFrom_spec', 'Ma.readAll_spec', 'Ma.readN_spec', 'Ma.peek_spec', 'Ma.consume_spec', 'Ma.dLoop_spec',
+    'Ma.straddle', 'Ma.need_le_fuelOf', 'Ma.weight_lt_big',
 ]
 STATEMENTS = {
     'Rd.public_history_refines_cursor': 'C14 for one synchronous reader: for every reader state satisfying the invariant, every lawful source (= every chunking and short-read pattern), every chunk size and every history of public operations read / peek / read_until / pipe_until (with or without consuming the delimiter, any size cap) / pipe / exhaust / readline / readlines with valid arguments (sizes None, -1 or >= 0; 1 <= len(delimiter) <= chunk size): the observations (bytes, list of lines, None, DelimiterError) are operation by operation those of the flat cursor cursorRun over abs(r), exactly the cursor\'s rest remains - nothing returned twice or skipped - and the invariant (incl. budget >= 0, i.e. never beyond max_stream_len) holds again',
@@ -121,12 +154,36 @@ STATEMENTS = {
     'ARd.tell_total': 'tell() + len(text still to come) = consumed + len(what the source will still deliver): with the preserved total this makes tell() the flat cursor position',
     'ARd.fresh_async': 'BufferedReader(source, chunk_size > 0) starts in a state satisfying the invariant, with abs = the concatenation of all source chunks and tell() = 0',
     'ARd.U_drop': 'after handing out m bytes that lie before the delimiter, the rest is still up to the same delimiter: m + U d (A[m:]) = U d A',
+    'Rn.delimit_is_lawful_source': 'the read callback that delimit(d) hands to the child reader (= the parent\'s read_until(d, size), delimiter not consumed), called with size > 0 on a parent reader satisfying the invariant over any lawful source, with remaining text t and 1 <= len(d) <= chunk size: returns exactly the first min(size, len(C)) bytes of C = t up to the first occurrence of d (all of t if none), so a prefix of at most the requested length that is empty only when C is; leaves the parent in a state satisfying the invariant (same chunk size) whose text is t minus exactly those bytes, and the content still to come is C minus those bytes - i.e. the callback is a lawful source with total content C',
+    'Rn.delimit_source_lawful': 'the same as an instance of the LawfulSource class: the callback restricted to parents in a good state (Mf.GD) satisfies all laws with data = the text up to the first d; it forgets to the real Rd.Delim by a simulation; the child reader delimit(p, d) built over it satisfies the invariant, its text is exactly that prefix, and its budget covers it',
+    'Rn.nested_history_refines_cursor': 'C14 for one level of nesting (sync): for every parent state satisfying the invariant over any lawful source, every delimiter of length 1..chunk size and every history of public operations on the CHILD delimit(d): the observations are those of the flat cursor over the prefix C of the parent\'s text before the first d (by instantiating public_history_refines_cursor at the lawful presentation of the child\'s source); the child\'s remaining text (unread buffer ++ what the parent still has before d) is exactly the cursor\'s rest; child buffer ++ parent text = cursor rest ++ the text from the delimiter on (nothing lost, nothing duplicated); the parent satisfies the invariant again, same chunk size, and is positioned at j = child cursor position + len(child\'s unread buffer) <= len(C) - never past the delimiter, and exactly AT the delimiter when the child was drained (rest empty)',
+    'Rn.parent_resumes': 'after the child is dropped the parent continues as a flat cursor: every history of public operations on it refines the flat cursor over the parent\'s original text from a position j with (what the child consumed) <= j <= (the delimiter), j = the delimiter position if the child was drained',
+    'Rn.nested_depth_refines': 'C14 for ANY nesting depth (sync): for every program built from public operations and delimit(d){...} blocks nested arbitrarily deep (run a sub-program on the child, drop it, continue on this reader), every reader state satisfying the invariant and every lawful source: running it on the reader model with real nested Rd.Delim sources (runProg) satisfies the flat-cursor specification ProgSpec - each reader at each level is a flat cursor over the text of its parent up to the first occurrence of its delimiter, a dropped child leaves its parent between what the child consumed and the delimiter (exactly at the delimiter when drained) - and the invariant holds again; by induction over programs generalising the source type (the child\'s source is presented as a lawful source GP, to which the induction hypothesis applies) + naturality of whole programs in the source (runProg_map)',
+    'Rn.nested_depth_refines_fresh': 'the same from construction BufferedReader(read, max_stream_len >= 0, chunk_size > 0): the root text is the first max_stream_len bytes of the source',
+    'Rn.readerRun_full': 'budget frame: if the declared budget covers what the source still holds (true of every delimited child: its budget is the parent\'s whole remaining length), it still does after any history of public operations - this is what pins the parent\'s position exactly',
+    'Rn.runProg_map': 'every program over nested readers is natural in the root source: for a simulation f of sources, running on mapR f r = running on r and mapping the result (delimit maps simulations to simulations: delimMap_sim)',
+    'Rn.child_parent': 'a child reader with covering budget: its text = its unread buffer ++ the parent\'s text up to the delimiter, and child buffer ++ parent text = child text ++ the text from the delimiter on',
+    'An.toMa_asyncStep': 'the C14 root model ARd IS the source-generic transcription Ma.AR of falcon/asgi/reader.py at the concrete chunk-list source: under the field-by-field bijection toMa every public operation (read, readall, peek, read_until, pipe_until, pipe, exhaust) returns the same observation and the translated state (proved function by function: normLoop_eq, nextNorm_eq, gstep_eq, readAll_eq, readN_eq, readFrom_eq, peek_eq, consume_eq, ...)',
+    'An.toMa_iterate': 'iteration abandoned after k chunks: the generic An.iterate at toMa r yields the chunks and state of ARi.iterate r (or reports the ValueError that ARi does not model and iterate_refines excludes)',
+    'An.delimited_source_lawful': 'the chunk source handed to the child by delimit(d) - the parent\'s generator _iter_delimited(d), suspended anywhere, on a parent satisfying the generator invariant - is a lawful chunk source (Ma\'s instance LawfulASource (DelimGen sigma): it delivers exactly the parent\'s text up to the first d in pieces, never raises, ends), and the freshly delimited child satisfies the invariant with exactly that text and tell() = 0',
+    'An.async_nested_history_refines_cursor': 'C14 for one level of nesting (async): for every parent state satisfying the invariant over ANY lawful chunk source (the root over a chunk list, or itself a delimited child), every delimiter of length 1..chunk size and every history of read / readall / peek / read_until / pipe_until / pipe / exhaust / iteration (complete or abandoned after k chunks) on the child p.delimit(d): every observation is accepted by the flat cursor over the prefix C of the parent\'s text before the first d, the child\'s remaining text is the cursor\'s rest, child.tell() = len(C) - len(rest), child.eof only at the end; (bytes the child holds: unread buffer ++ pending chunk of its _iter_normalized) ++ parent text = rest ++ the text from the delimiter on (nothing lost, nothing duplicated); the parent satisfies the invariant, same chunk size, is at position j = child cursor + len(held) <= len(C) - never past the delimiter, exactly at it when the child was drained - and parent.tell() advanced by exactly j',
+    'An.async_nested_depth_refines': 'C14 for ANY nesting depth (async): for every program built from operations, iterations and delimit(d){...} blocks nested arbitrarily deep, every reader state satisfying the invariant and every lawful chunk source: running it on the generic reader model (runAProg: a child is a reader over Ma.DelimGen of its parent) satisfies the flat-cursor specification AProgSpec (same shape as the sync ProgSpec; iteration = any chunking of the next bytes), the invariant, chunk size and tell()+len(rest) are preserved; by induction over programs generalising the source type',
+    'An.root_nested_history_refines_cursor': 'the one-level statement for a state of the C14 root model ARd satisfying ARd.Good, with the parent translated back to ARd afterwards (so ARd.async_history_refines_cursor continues from there): ARd.abs / ARd.tell of the parent = original text from position j, tell + j',
+    'An.async_nested_depth_fresh': 'from construction BufferedReader(source, chunk_size > 0) over any list of source chunks: any program with nested delimits of any depth satisfies AProgSpec over the concatenated data, and the root\'s tell() = len(data) - len(rest)',
+    'An.n_history_refines_cursor': 'every history of operations incl. abandoned iteration on a reader over ANY lawful chunk source is accepted by the flat cursor (source-generic version of ARd.async_history_iter_refines_cursor)',
+    'An.iterate_refines': 'async-for over a reader at any nesting level, stopped after k chunks: the chunks concatenate to the next bytes of its flat text, the rest remains, fewer than k chunks only if the text is used up, no ValueError',
+    'An.absA_held': 'a reader\'s text = the bytes it holds (unread buffer ++ what _iter_normalized has taken from its source and not yet yielded) ++ what its source still delivers (needs: after _iter_normalized has seen the end, the source holds nothing more - the frame invariant VT, preserved by every operation: nRun_vt)',
+    'An.total_reach': 'reading through a delimited child never changes the parent\'s tell() + len(text still to come)',
+    'Ma.ar_history_refines_cursor': 'every history of public operations of the source-generic transcription of falcon/asgi/reader.py refines the flat cursor, over any lawful chunk source (port of ARd.async_history_refines_cursor; MultipartAsyncReaderProofs.lean)',
+    'Ma.PInv_reach': 'whatever is done with a delimited child, its parent keeps the generator invariant and its chunk size, and parent position + what the suspended _iter_delimited will still hand out = the position of the first delimiter',
+    'Mf.part_stream_refines': 'sync, one level, without exact position: histories on delimit(p, d) refine the cursor over the content and leave the parent good, not beyond the delimiter (MultipartBridge.lean)',
 }
 TRUSTED = [
     'LawfulSource as the contract of the read callable handed to the sync reader (returns a prefix of the text still to come, at most the requested length, empty only at its end); instance proved for the file-like source with any short-read oracle',
     'the Python statement oracle `Cur` in harness/props/c14.py (flat cursor; a delimited sub-reader = cursor over the text up to the next delimiter)',
     'timers deciding "did not return": 3 s of CPU time (ITIMER_VIRTUAL) or 60 s wall-clock (ITIMER_REAL) per real call; asyncio.wait_for(..., 60 s) around every async case',
-    'async reader: the theorems are about the model ARd/ARi (AsyncReader.lean, AsyncReaderIter.lean); that this model behaves like falcon/asgi/reader.py is the differential correspondence through ardriver (return values, exceptions, tell(), eof, the chunks of an iteration); a source is a finite list of byte chunks; the representation invariant Good requires chunk_size > 0',
+    'async reader: the theorems are about the model ARd/ARi (AsyncReader.lean, AsyncReaderIter.lean) for the root reader and about An/Ma (AsyncReaderNested.lean on MultipartAsync.lean: the same file transcribed generically in its chunk source, a delimited child being a reader over the parent\'s _iter_delimited generator) for nested readers - An.toMa_asyncStep proves the two agree at the root; that these models behave like falcon/asgi/reader.py is the differential correspondence through ardriver (return values, exceptions, tell(), eof, the chunks of an iteration, at every nesting level); a root source is a finite list of byte chunks; the representation invariant Good requires chunk_size > 0',
+    'nested readers: the theorems nested_depth_refines / async_nested_depth_refines are about programs (Rn.Prog / An.AProg: operations and properly nested delimit{...} blocks, run by runProg / runAProg) for ANY depth; the drivers execute the flat delimit/pop line protocol with a stack of at most two nested levels using the same primitives (Rd.delimit / Ma.delimit of the innermost reader, pop = its .src.parent) - that this bookkeeping is runProg on the corresponding program is by inspection of RdMain.lean / ArMain.lean, not a theorem',
 ]
 ASSUMPTIONS = [
     'size arguments are None, -1 or >= 0 for the sync reader (read(-2) moves the buffer position backwards; not part of the statement); any int or None for the async reader',
@@ -145,14 +202,19 @@ RULE = ('random part: data over {a,b,CR,LF,-} (uniform or delimiter-sparse) of l
         'delimiter starting 1..3 bytes before the end of the buffered bytes and a size cap around it; a quarter of the sync cases additionally address parents of a live child and use invalid delimiters (model comparison only from there on). '
         'Grid part: every data string up to length 3 (quick: complete to length 2, a fifth of length 3) / 4 (thorough) x chunk sizes {1..len+1, 64} x 3-4 source patterns x every history up '
         'to length 2 (quick, and thorough for length-4 data) / 3 (thorough, data up to length 3) over a fixed op alphabet (sync 18 ops, async 17 ops) incl. delimit/pop; one in 40 grid cases '
-        'also goes to the model. non-trivial = some operation returned data; distinct = distinct (reader kind, construction, history)')
+        'also goes to the model. Nested cases of BOTH readers (delimit / operations on the child and grandchild incl. iteration / pop, then the parent again) are compared with the model '
+        'line by line like root cases (sync: Rd.delimit over Rd.Delim sources; async: Ma.delimit over Ma.DelimGen sources, tags async_nested_modelled / async_nested_iter_modelled). '
+        'non-trivial = some operation returned data; distinct = distinct (reader kind, construction, history)')
 PARTIAL = ('Proved for the sync reader over any lawful source (= every chunking and short-read pattern): every history of public operations of one reader - read, peek, read_until and pipe_until '
            'with and without delimiter consumption (join and pipe_until branch), pipe, exhaust, readline, readlines - refines the flat cursor (public_history_refines_cursor). Proved for the async '
            'root reader over any list of source chunks (empty chunks anywhere): every history of read, readall, peek, read_until, pipe_until (with and without delimiter consumption), pipe, exhaust '
            'and iteration refines the same flat cursor, tell() is the cursor position, eof only at the end (async_reader_refines_flat_cursor, async_history_iter_refines_cursor; all fuel of the model '
-           'shown sufficient). Not proved (carried by correspondence + oracle): delimit for both readers (sync: delimit_refines_subcursor, i.e. Delim restricted to valid parents as a LawfulSource; async: nested '
-           'readers are not in the model and are checked by the oracle only), the _iteration_started guard of the async reader (a second iteration raises; not modelled), and async sources that are '
-           'not finite chunk lists (a source raising an exception).')
+           'shown sufficient). Proved for NESTED delimited readers of both readers at any depth (Rn.delimit_is_lawful_source, Rn.nested_history_refines_cursor, Rn.nested_depth_refines; '
+           'An.delimited_source_lawful, An.async_nested_history_refines_cursor, An.async_nested_depth_refines, with An.toMa_asyncStep: the root model ARd is the source-generic transcription at the concrete source): '
+           'a child is a flat cursor over the parent text up to the first delimiter, the parent is left exactly at child-cursor + bytes-held-by-the-child, never past the delimiter, at the delimiter when the child was drained. '
+           'Not proved (carried by correspondence + oracle): operations addressed to a parent WHILE a child of it is alive (outside the statement; compared with the sync model only); that the drivers\' flat delimit/pop '
+           'protocol is runProg/runAProg of the corresponding program (same primitives, by inspection); the _iteration_started guard of the async reader (a second iteration raises; not modelled); '
+           'async root sources that are not finite chunk lists (a source raising an exception); size arguments < -1 of the sync reader.')
 JOBS = {'quick': 4, 'thorough': 16}
 
 ALPH = b'ab\r\n-'
@@ -894,7 +956,9 @@ async def _run_async_body(env, plan, next_op, sess, st):
             ccur, p0 = cur.sub(op[1])
             stack.append([r.delimit(op[1]), ccur, p0, False])
             tags.add('delimit' + str(len(stack) - 1))
-            modelled = False          # the async model has no nested readers: oracle only from here on
+            if modelled:              # nested readers are in the model (An/Ma: the child's source is the parent's _iter_delimited)
+                sess.op(_line(op), 'ok')
+                tags.add('nested_modelled')
             continue
         if k == 'pop':
             if len(stack) < 2:
@@ -903,13 +967,15 @@ async def _run_async_body(env, plan, next_op, sess, st):
             _, ccur, p0, _ = stack.pop()
             tags.add('pop_exhausted' if ccur.at_end() else 'pop_abandoned')
             stack[-1][1].resume(p0, ccur)
+            if modelled:
+                sess.op('pop', 'ok')
             continue
         if k == 'iter':
             if stack[-1][3]:
                 continue              # a second iteration raises OperationNotAllowed (guard, not part of the statement)
             stack[-1][3] = True
             if modelled:
-                tags.add('iter_modelled')         # ARi.iterate: the chunks of the iteration are compared with the model
+                tags.add('iter_modelled' if len(stack) == 1 else 'nested_iter_modelled')   # ARi.iterate / An.iterate: the chunks of the iteration are compared with the model
         if k in ('ru', 'pu') and not 1 <= len(op[1]) <= chunk:
             if not modelled or plan.get('grid'):
                 continue
@@ -1033,7 +1099,7 @@ def _async(ctx, BR, DelimiterError):
     import asyncio
     rnd = ctx.rng
     env = (asyncio, _Alarm(), BR, DelimiterError)
-    sess = _Sessions(ctx, 'async BufferedReader (root reader, incl. iteration) = ARd/ARi model', 'ardriver')
+    sess = _Sessions(ctx, 'async BufferedReader (root + nested delimited readers, incl. iteration) = ARd/ARi + An/Ma model', 'ardriver')
     stuck = [0]
 
     def record(plan, res, kind, key=None):
@@ -1185,10 +1251,13 @@ LEVEL_TEXT = ('Machine-checked refinement proofs (Lean 4) for the synchronous Bu
               'For the asynchronous BufferedReader the same flat cursor is refined by every history of read / readall / peek / read_until / pipe_until / pipe / exhaust / iteration over every list of source chunks '
               '(empty chunks anywhere): invariant relating buffer, position, the suspended _iter_normalized and the remaining chunks to (data, flat position); one lemma per resumption of the wrapper generators '
               '(_iter_with_buffer, _iter_delimited with the cross-chunk fragment search), per _read_from loop and per public operation; induction over histories (async_reader_refines_flat_cursor, '
-              'async_history_iter_refines_cursor); tell() = cursor position, eof only at the end. The models '
-              '(sync incl. nested delimited readers; async root reader incl. iteration) are tied to falcon/util/reader.py and falcon/asgi/reader.py on every run by a differential correspondence that '
+              'async_history_iter_refines_cursor); tell() = cursor position, eof only at the end. Nested delimited readers of both readers, at any depth: the read callback / chunk generator that delimit(d) hands to the '
+              'child is a lawful source whose content is the parent text up to the first d (Rn.delimit_is_lawful_source, An.delimited_source_lawful), so the one-reader theorems instantiate at the child; the parent is left in a good state '
+              'at exactly child-cursor + bytes-held-by-the-child, never past the delimiter (Rn.nested_history_refines_cursor, An.async_nested_history_refines_cursor), and by induction over programs with the source type generalised '
+              'the same holds at every depth (Rn.nested_depth_refines, An.async_nested_depth_refines). The models '
+              '(sync and async, root and nested delimited readers, incl. iteration) are tied to falcon/util/reader.py and falcon/asgi/reader.py on every run by a differential correspondence that '
               'compares return values, exceptions, the exact sizes requested from the source (sync) and tell()/eof (async); an independent flat-cursor oracle written from the statement '
               'decides failing inputs for both readers, including two levels of delimited sub-readers.')
-LEVEL_NOTE = ('Trusted: Lean kernel + standard axioms, the correspondence harness, the Cur oracle. Partial: delimit (nested readers, sync and async) is carried by correspondence + oracle, '
-              'not by theorems.')
+LEVEL_NOTE = ('Trusted: Lean kernel + standard axioms, the correspondence harness, the Cur oracle, the delimit/pop bookkeeping of the two drivers. Partial: operations on a parent while its child is alive, '
+              'the _iteration_started guard and raising async sources are not covered by theorems.')
 TECHNIQUE = 'Lean 4 refinement proof (sync reader model over any lawful source, async reader model over any chunk list -> one flat cursor) + differential correspondence model vs. real code + statement oracle (flat cursor with sub-cursors)'
